@@ -1578,6 +1578,23 @@ class Oracle(object):
         return res
 
 
+def replay_known(entry):
+    """F37 is outside the generated domain (no operation addresses a font-less layer): its witness is replayed here"""
+    if entry.get("signature") != "C11/removed-still-answers/glyph.layer/fontless-layer":
+        return False
+    from defcon import Font, Layer
+    layer = Layer()
+    g1 = layer.newGlyph("A")
+    del layer["A"]
+    font = Font()
+    dead = font.newLayer("x")
+    del font.layers["x"]
+    g2 = dead.newGlyph("A")
+    del dead["A"]
+    keep = [layer, g1, font, dead, g2]
+    return g1.layer is layer and g2.layer is dead and dead.layerSet is None and bool(keep)
+
+
 def run_impl(case):
     w = World(case)
     orc = Oracle(w)
